@@ -97,7 +97,7 @@ def flatten_list(lst):
 KEY_POSITIONS = ("before-cert", "after-order", "before-challenges")
 
 
-def predict(meta, fail_ordinals, key_position="before-cert"):
+def predict(meta, fail_ordinals, key_position="before-cert", retry_acct_save=False):
     """Reference trace: list of (hook name, event type, is_clean, success flag for post-operation).
     The property does not say *when* a new private key is written relative to the challenges: the three
     plausible places are all accepted (judge() tries each)."""
@@ -105,7 +105,9 @@ def predict(meta, fail_ordinals, key_position="before-cert"):
     af = bool(meta["allow_failure"])
     ctype = meta["ident"][1]
     trace = []
-    state = {"n": 0, "acct_file": False, "registered": False, "key": False, "crt": False}
+    # retry_acct_save: a daemon may store the account again at its next attempt when the previous store failed (the property fixes
+    # which hooks bracket a file write, not how often a file is written): accepted as an alternative
+    state = {"n": 0, "acct_file": False, "registered": False, "key": False, "crt": False, "acct_pending": False}
 
     def run_event(hooks, etype, info):
         for h in hooks:
@@ -129,8 +131,13 @@ def predict(meta, fail_ordinals, key_position="before-cert"):
         if not state["registered"]:
             state["registered"] = True
             ok = write_file(aflat, "acct_file")
+            state["acct_pending"] = not ok
         elif att in meta.get("acct_edit_attempts", []):
             ok = write_file(aflat, "acct_file")
+            state["acct_pending"] = not ok
+        elif retry_acct_save and state["acct_pending"]:
+            ok = write_file(aflat, "acct_file")
+            state["acct_pending"] = not ok
         if ok and key_position == "before-challenges":
             ok = write_file(flat, "key")
         if ok:
@@ -156,8 +163,8 @@ def judge(req, obs):
             fail_ord.add(i)  # (a hook killed by a signal has not exited with 0 either)
     got_tags = [h.get("tag") for h in hooks]
     pred = predict(m, fail_ord)
-    for kp in KEY_POSITIONS:
-        cand = predict(m, fail_ord, kp)
+    for kp, retry in [(k, r) for r in (False, True) for k in KEY_POSITIONS]:
+        cand = predict(m, fail_ord, kp, retry)
         if [p[0] for p in cand] == got_tags:
             pred = cand
             break
